@@ -5,12 +5,18 @@ import json, subprocess, sys, os
 root = os.path.dirname(os.path.dirname(os.path.abspath(__file__)))
 table = json.load(open(os.path.join(root, 'tools', 'manifest_table.json')))
 built = subprocess.check_output([os.path.join(root, 'bin', 'ctl'), '-list']).decode().split()
+desc = json.loads(subprocess.check_output([os.path.join(root, 'bin', 'ctl'), '-describe']).decode())
 props = [json.loads(l)['id'] for l in open(os.path.join(root, 'properties.jsonl')) if l.strip()]
 hooks = subprocess.check_output(['git', '-C', '/repo', 'log', '--format=%H %s']).decode().splitlines()
 hook_commits = [l.split()[0] for l in hooks if l.split(' ', 1)[1].startswith('verif hook')]
 checks, na = [], []
 for pid in props:
-    t = table.get(pid, {})
+    t = dict(table.get(pid, {}))
+    d = desc.get(pid, {})
+    t.setdefault('level', d.get('level', 'exploration'))
+    t.setdefault('text', 'Runtime monitoring of the real code under generated workloads: ' + d.get('rule', '') + '. Verdict = held on the executions observed (counts and samples in the evidence file).')
+    t.setdefault('note', 'Assumes: ' + '; '.join(d.get('assumptions') or ['the harness observation channel (in-process fork execution, captured stdout/stderr/exit) is faithful']))
+    t.setdefault('technique', d.get('technique') or 'runtime monitoring: generated workload + reference-model oracle over observed executions')
     if pid in built and not t.get('unclaimed'):
         checks.append({
             "property_id": pid,
